@@ -69,30 +69,39 @@ def hostrangeShift (r : HRange) : Option Str × HRange :=
     shift and is deleted with hosts still counted. -/
 def shiftCrashes (h : HL) : Bool := h.nhosts > 0 && h.ranges.size = 0
 
-/-- `hostlist_shift` (no live iterators); only meaningful when `shiftCrashes h = false` -/
-def shift (h : HL) : Option Str × HL :=
-  if h.nhosts > 0 then
-    match h.ranges[0]? with
-    | none => (none, h)
-    | some r =>
+/-- `hostlist_shift` on the range array seen as a list (head = `hl->hr[0]`) and the counter;
+    only meaningful when there is a record or `nhosts ≤ 0` (see `shiftCrashes`) -/
+def shiftL (rs : List HRange) (nhosts : Int) : Option Str × List HRange × Int :=
+  if nhosts > 0 then
+    match rs with
+    | [] => (none, rs, nhosts)
+    | r :: rest =>
       match hostrangeShift r with
       | (host, r') =>
-        if r'.empty then (host, ⟨(h.ranges.toList.drop 1).toArray, h.nhosts - 1⟩)   -- hostlist_delete_range(hl, 0)
-        else (host, ⟨h.ranges.setIfInBounds 0 r', h.nhosts - 1⟩)
-  else (none, h)
+        if r'.empty then (host, rest, nhosts - 1)          -- hostlist_delete_range(hl, 0)
+        else (host, r' :: rest, nhosts - 1)
+  else (none, rs, nhosts)
+
+/-- `hostlist_shift` (no live iterators) -/
+def shift (h : HL) : Option Str × HL :=
+  match shiftL h.ranges.toList h.nhosts with
+  | (host, rs, n) => (host, ⟨rs.toArray, n⟩)
 
 /-- `while ((host = hostlist_shift(hl)))`, at most `limit` names; `none` = the loop crashed -/
-def shiftLoop : Nat → HL → Option (List Str × HL)
-  | 0, h => some ([], h)
-  | n + 1, h =>
-    if shiftCrashes h then none
+def shiftLoopL : Nat → List HRange → Int → Option (List Str × List HRange × Int)
+  | 0, rs, nh => some ([], rs, nh)
+  | n + 1, rs, nh =>
+    if nh > 0 && rs.isEmpty then none                      -- shiftCrashes
     else
-      match shift h with
-      | (none, h') => some ([], h')
-      | (some x, h') =>
-        match shiftLoop n h' with
-        | some (xs, h'') => some (x :: xs, h'')
+      match shiftL rs nh with
+      | (none, rs', nh') => some ([], rs', nh')
+      | (some x, rs', nh') =>
+        match shiftLoopL n rs' nh' with
+        | some (xs, rs'', nh'') => some (x :: xs, rs'', nh'')
         | none => none
+
+def shiftLoop (limit : Nat) (h : HL) : Option (List Str × HL) :=
+  (shiftLoopL limit h.ranges.toList h.nhosts).map fun (xs, rs, n) => (xs, ⟨rs.toArray, n⟩)
 
 def shiftAll (h : HL) (limit : Nat) : Option (List Str) := (shiftLoop limit h).map (·.1)
 
